@@ -706,6 +706,85 @@ def rule_f(res: Results, idx: Index) -> None:
 
 
 # ---------------------------------------------------------------------------------------------- R-C14g
+_LOSSY_ATTRS = {"__code__", "__name__", "__qualname__", "__module__", "__class__", "__func__", "__wrapped__", "__doc__"}
+
+
+def _occurrence_kind(idx: Index, m, n: ast.Name, depth: int = 0) -> str:
+    """How one occurrence of a parameter name is consumed: 'lossy:<what>' (only a projection that different objects can
+    share is taken) or 'whole'."""
+    par = getattr(n, "parent", None)
+    if isinstance(par, ast.Attribute) and par.value is n and par.attr in _LOSSY_ATTRS:
+        return f"lossy:`.{par.attr}`"
+    if isinstance(par, ast.Call) and n in par.args:
+        cn = call_name(par) or ""
+        if cn == "getattr" and par.args[0] is n and len(par.args) >= 2 and isinstance(par.args[1], ast.Constant) and par.args[1].value in _LOSSY_ATTRS:
+            return f"lossy:`getattr(…, '{par.args[1].value}')`"
+        if cn == "type" and len(par.args) == 1:
+            return "lossy:`type(…)`"
+        if cn in ("callable", "isinstance", "hasattr"):
+            return "lossy:a predicate"
+        g = idx.resolve_func(m, cn) if cn and depth < 2 else None
+        if g is not None:
+            pos = par.args.index(n)
+            gp = [a.arg for a in g.node.args.posonlyargs + g.node.args.args]  # type: ignore[attr-defined]
+            if gp and gp[0] in ("self", "cls") and "." in cn:
+                gp = gp[1:]
+            if pos < len(gp):
+                gdu = defuse(g.node)
+                kinds = []
+                gm = idx.modules.get(g.module) if hasattr(g, "module") and isinstance(getattr(g, "module", None), str) else m
+                for r in walk_no_nested(g.node):
+                    if isinstance(r, ast.Return) and r.value is not None:
+                        exprs = [r.value] + [d.value for nm in gdu.closure(names_in(r.value)) for d in gdu.defs.get(nm, []) if d.value is not None]
+                        for e in exprs:
+                            for x in ast.walk(e):
+                                if isinstance(x, ast.Name) and x.id == gp[pos] and isinstance(x.ctx, ast.Load):
+                                    kinds.append(_occurrence_kind(idx, gm or m, x, depth + 1))
+                if kinds and all(k.startswith("lossy") for k in kinds):
+                    return kinds[0] + f" inside {g.qualname}()"
+                if not kinds:
+                    return "lossy:nothing at all"
+    return "whole"
+
+
+def _lossy_key_params(idx: Index, m, fi, du, key_e: ast.AST, w: ast.Assign, tname: str, cands) -> list:
+    out = []
+    nested = {n.name: n for n in ast.walk(fi.node) if isinstance(n, (ast.FunctionDef, ast.AsyncFunctionDef, ast.Lambda)) and n is not fi.node and hasattr(n, "name")}
+
+    def exprs_of(root: ast.AST, skip_table_reads: bool) -> list:
+        names = du.closure(names_in(root)) | names_in(root)
+        ex = [root]
+        for nm in names:
+            for d in du.defs.get(nm, []):
+                if d.value is None:
+                    continue
+                if skip_table_reads and any(isinstance(x, ast.Name) and x.id == tname for x in ast.walk(d.value)):
+                    continue
+                ex.append(d.value)
+            if nm in nested:
+                ex.append(nested[nm])
+        return ex
+    kex = exprs_of(key_e, False)
+    vex = exprs_of(w.value, True)
+    # names reachable from the value through nested functions' free variables
+    more = []
+    for e in vex:
+        if isinstance(e, (ast.FunctionDef, ast.AsyncFunctionDef)):
+            for x in ast.walk(e):
+                if isinstance(x, ast.Name) and x.id in nested and nested[x.id] is not e:
+                    more.append(nested[x.id])
+    vex += more
+    for p_ in sorted(cands):
+        kk = [_occurrence_kind(idx, m, x) for e in kex for x in ast.walk(e) if isinstance(x, ast.Name) and x.id == p_ and isinstance(x.ctx, ast.Load)]
+        if not kk or not all(k.startswith("lossy") for k in kk):
+            continue
+        vk = [_occurrence_kind(idx, m, x) for e in vex for x in ast.walk(e) if isinstance(x, ast.Name) and x.id == p_ and isinstance(x.ctx, ast.Load)
+              and not any(x in list(ast.walk(k_)) for k_ in kex)]
+        if any(k == "whole" for k in vk):
+            out.append((p_, kk[0].split(":", 1)[1]))
+    return out
+
+
 def rule_g(res: Results, idx: Index) -> None:
     """A module-level memo table makes a later request depend on earlier ones unless its key determines the memoised value.
     For every function that both reads (`M.get(K)`, `M[K]`, `K in M`) and writes (`M[K] = V`) a module-level mapping, every
@@ -760,7 +839,13 @@ def rule_g(res: Results, idx: Index) -> None:
                 missing = sorted(val_deps - key_deps)
                 key = f"{m.rel}::{fi.qualname}::memo::{tname}"
                 site = f"{m.rel}:{w.lineno}"
-                if missing:
+                lossy = [] if missing else _lossy_key_params(idx, m, fi, du, key_e, w, tname, params & key_deps)
+                if lossy:
+                    p0, how = lossy[0]
+                    res.violation("R-C14g", site, key, f"`{tname}[{src(key_e, 30)}] = {src(w.value, 40)}`: the key sees the parameter `{p0}` only through {how}, while the memoised value is computed from `{p0}` itself — "
+                                  f"two different objects that agree on that projection (closures made by one factory, methods of two instances) share one entry, so the second request is answered with the "
+                                  "first one's result: an export depends on which conversions ran before it", fi.qualname)
+                elif missing:
                     res.violation("R-C14g", site, key, f"`{tname}[{src(key_e, 30)}] = {src(w.value, 40)}`: the memoised value is computed from the parameter(s) {missing}, which the key does not contain — the first call's answer is returned "
                                   "to every later call that differs only there, so an export depends on which conversions ran before it in the process", fi.qualname)
                 else:
